@@ -162,6 +162,9 @@ func (tr *Tr) callContract(key string, fc *FuncContract, f *ssa.Function, sig *t
 	post := &CEnv{vars: env.vars, st: st, old: pre, pkg: env.pkg}
 	tr.bindResults(post, sig, res)
 	tr.specMode++
+	for _, f := range tr.frameFormulas(fc, mods, env, pre, st) {
+		tr.assume(st, f.formula)
+	}
 	for _, en := range fc.Ensures {
 		tr.assume(st, tr.evalBool(post, en.Expr))
 	}
@@ -396,4 +399,54 @@ func (tr *Tr) doAppend(st *State, et types.Type, s, e Sl) Value {
 		tr.setHeapVar(st, name, arr2(lf.sort), tr.nameTerm(name, arr2(lf.sort), sIte(sAnd(inPlace, sEq(e.Len, "0")), h, upd)))
 	}
 	return Sl{tr.nameTermInt("aparr", rArr), tr.nameTermInt("apoff", rOff), newLen, tr.nameTermInt("apcapr", rCap)}
+}
+
+type frameFormula struct {
+	name    string
+	formula string
+}
+
+// frameFormulas turns the frame clauses of a contract into one formula per modified heap variable:
+// every object (backing array) of the clause's type that existed in the pre-state and is not listed keeps its contents.
+func (tr *Tr) frameFormulas(fc *FuncContract, mods map[string]modInfo, env *CEnv, pre, post *State) []frameFormula {
+	var out []frameFormula
+	for _, fcl := range fc.Frames {
+		penv := *env
+		penv.st = pre
+		penv.old = pre
+		var refs []string
+		for _, e := range fcl.Exprs {
+			v, t := tr.evalC(&penv, e)
+			refs = append(refs, tr.refOf(&penv, v, t))
+		}
+		prefix := "F$" + fcl.TypeKey + "."
+		if fcl.Elems {
+			prefix = "E$" + fcl.TypeKey
+		}
+		for _, name := range sortedKeys(mods) {
+			mi := mods[name]
+			if mi.sort == "" {
+				continue
+			}
+			if fcl.Elems {
+				if name != prefix && !strings.HasPrefix(name, prefix+".") && !strings.HasPrefix(name, prefix+"#") {
+					continue
+				}
+			} else if !strings.HasPrefix(name, prefix) {
+				continue
+			}
+			oldT := tr.heapVar(pre, name, mi.sort)
+			newT := tr.heapVar(post, name, mi.sort)
+			if oldT == newT {
+				continue
+			}
+			conds := []string{"(< 0 o)", "(< o " + pre.top + ")"}
+			for _, r := range refs {
+				conds = append(conds, sNot(sEq("o", r)))
+			}
+			f := fmt.Sprintf("(forall ((o Int)) (! (=> %s (= (select %s o) (select %s o))) :pattern ((select %s o))))", sAnd(conds...), newT, oldT, newT)
+			out = append(out, frameFormula{name, f})
+		}
+	}
+	return out
 }
